@@ -118,8 +118,9 @@ type path struct {
 	parent            pathParent
 
 	// accessed by pathManager only
-	ready    bool
-	confName string
+	ready           bool
+	confName        string
+	reloadDelivered chan struct{}
 
 	ctx                            context.Context
 	ctxCancel                      func()
@@ -1105,6 +1106,26 @@ func (pa *path) addReaderPost(req defs.PathAddReaderReq) {
 	}
 
 	req.Res <- defs.PathAddReaderRes{Stream: pa.stream}
+}
+
+// reloadConfAsync is called by pathManager.
+// it runs deliver, that hands a new configuration to the path, without waiting for the path,
+// since the path may in turn be waiting for pathManager.
+// configurations are delivered in the order in which they are issued.
+func (pa *path) reloadConfAsync(deliver func()) {
+	prev := pa.reloadDelivered
+	cur := make(chan struct{})
+	pa.reloadDelivered = cur
+
+	go func() {
+		defer close(cur)
+
+		if prev != nil {
+			<-prev
+		}
+
+		deliver()
+	}()
 }
 
 // reloadConf is called by pathManager.
